@@ -106,7 +106,11 @@ def run(ctx: Ctx) -> Result:
             lines.append(f'gen {t}')
             impl_out.append(i)
     # prefix disjointness on the real generators, same clock
-    for (u1, u2) in [('a', 'a_1'), (None, 'a'), ('1', None), ('x_1', 'x')]:
+    # (prefixes that some normalisation would identify are DIFFERENT prefixes: letter case, surrounding blanks, composed /
+    # decomposed accents, a trailing separator, an empty prefix against none)
+    for (u1, u2) in [('a', 'a_1'), (None, 'a'), ('1', None), ('x_1', 'x'), ('urn:x:Lab:1', 'urn:x:lab:1'), ('Dev', 'dev'),
+                     ('URN:x', 'urn:x'), (' a', 'a'), ('a ', 'a'), ('caf\u00e9', 'cafe\u0301'), ('a_', 'a'), ('', None),
+                     ('a:b', 'a:B'), ('\uff41', 'a'), ('a\u200b', 'a')]:
         r = steps_to_readings(1, [0, 1, 0, 0, 1, -1, 0, 11, 0])
         i1, i2 = impl_ids(u1, r), impl_ids(u2, r)
         res.add_case({'prefixes': [u1, u2], 'readings': r})
